@@ -467,3 +467,26 @@ func c14CtlConfigs(tier string) []C14CtlCfg {
 }
 
 func checkC14ctl() int { return checkSimple("C14", "C14ctl", "C14-ctl.part") }
+
+// c18RestConfigs (part C18rest of C18): the controller's READ handlers (volumes, stats, checkpoint, replica list, one
+// replica) against the requests that change membership (REST ERR, removal, snapshot, verify, add): a request that only
+// reports must leave the bookkeeping alone - the membership invariants of C18 are evaluated at the end.
+func c18RestConfigs(tier string) []C14CtlCfg {
+	var out []C14CtlCfg
+	for _, g := range []string{"vols", "stats", "cp", "reps", "rep1"} {
+		for _, m := range []string{"err1", "err0", "del1", "snap"} {
+			out = append(out, C14CtlCfg{Name: "reads", Init: "rw3", Reqs: []string{g, m}})
+		}
+		for _, m := range []string{"ver2", "err0", "del2"} {
+			out = append(out, C14CtlCfg{Name: "reads", Init: "rw2wo", Reqs: []string{g, m}})
+		}
+	}
+	if tier == "thorough" {
+		for _, g := range []string{"stats", "reps"} {
+			out = append(out, C14CtlCfg{Name: "reads", Init: "rw3", Reqs: []string{g, "err1", "err0"}}, C14CtlCfg{Name: "reads", Init: "rw3", Reqs: []string{g, g, "err1"}})
+		}
+	}
+	return out
+}
+
+func checkC18Rest() int { return checkSimple("C18", "C18rest", "C18-rest.part") }
